@@ -130,66 +130,66 @@ theorem getD_last (d : List Nat) (hne : d ≠ []) : d.getD (d.length - 1) 0 = d.
       rw [getLastD_cons_cons, ← ih (by simp)]
       simp
 
-/-- closed form of `Curve::number_arrivals`: with `last` the largest recorded distance,
-`N (c*last + tail) = c*len + (0 if tail = 0, else 1 + #{i | d[i] < tail})` -/
+/-- closed form of `Curve::number_arrivals`: with `last` the largest recorded distance and
+`1 ≤ tail ≤ last`, `N (c*last + tail) = c*len + 1 + #{i | d[i] < tail}` -/
 theorem curveN_closed (d : List Nat) (hwf : curveWF d) (c tail : Nat)
-    (ht : tail < d.getLastD 0) :
-    curveN d (c * d.getLastD 0 + tail) =
-      c * d.length + (if tail = 0 then 0 else 1 + countLt d tail) := by
+    (ht1 : 1 ≤ tail) (ht : tail ≤ d.getLastD 0) :
+    curveN d (c * d.getLastD 0 + tail) = c * d.length + (1 + countLt d tail) := by
   obtain ⟨hne, hs, hl⟩ := hwf
   unfold curveN
-  have hle : tail ≤ d.getLastD 0 := Nat.le_of_lt ht
   generalize hL : d.getLastD 0 = L at *
-  by_cases h0 : c * L + tail = 0
-  · rw [if_pos h0]
-    have h1 : tail = 0 := by omega
-    have hc : c = 0 := by
-      rcases Nat.eq_zero_or_pos c with h | h
-      · exact h
-      · have := Nat.mul_le_mul_right L h
-        omega
-    simp [h1, hc]
-  · rw [if_neg h0]
-    have hq : (c * L + tail) / L = c := by
-      rw [Nat.mul_comm, Nat.mul_add_div (by omega), Nat.div_eq_of_lt ht]; rfl
-    have hr : (c * L + tail) % L = tail := by
-      rw [Nat.mul_comm, Nat.mul_add_mod, Nat.mod_eq_of_lt ht]
-    simp only [hq, hr]
-    split
-    · rename_i hgt
-      rw [curveLookup_eq d hs hne tail (by omega), if_neg (by omega)]
-      rfl
-    · rename_i hngt
-      by_cases ht0 : tail = 0
-      · simp [ht0]
-      · rw [if_pos ht0, if_neg ht0, countLt_eq_zero]
-        cases d with
-        | nil => exact absurd rfl hne
-        | cons a as =>
-          intro v hv
-          have := sorted_head_le hs v hv
-          simp only [List.headD_cons] at hngt
-          omega
+  rw [if_neg (by omega)]
+  have hq : (c * L + tail - 1) / L = c := by
+    have e : c * L + tail - 1 = L * c + (tail - 1) := by rw [Nat.mul_comm]; omega
+    rw [e, Nat.mul_add_div (by omega), Nat.div_eq_of_lt (by omega)]; rfl
+  have hr : c * L + tail - L * c = tail := by rw [Nat.mul_comm]; omega
+  simp only [hq, hr]
+  split
+  · rw [curveLookup_eq d hs hne tail (by omega)]
+    rfl
+  · rename_i hngt
+    rw [countLt_eq_zero]
+    cases d with
+    | nil => exact absurd rfl hne
+    | cons a as =>
+      intro v hv
+      have := sorted_head_le hs v hv
+      simp only [List.headD_cons] at hngt
+      omega
 
 theorem curveN_zero (d : List Nat) : curveN d 0 = 0 := by
   simp [curveN]
 
-theorem curveN_decomp (d : List Nat) (hwf : curveWF d) (x : Nat) :
-    ∃ c t, t < d.getLastD 0 ∧ x = c * d.getLastD 0 + t ∧
-      curveN d x = c * d.length + (if t = 0 then 0 else 1 + countLt d t) := by
+/-- inside the first period (`x ≤ last`) `number_arrivals` is the plain lookup -/
+theorem curveN_closed0 (d : List Nat) (hwf : curveWF d) (x : Nat) (hx : x ≤ d.getLastD 0) :
+    curveN d x = (if x = 0 then 0 else 1 + countLt d x) := by
+  by_cases h0 : x = 0
+  · subst h0; rw [curveN_zero]; rfl
+  · have := curveN_closed d hwf 0 x (by omega) hx
+    rw [Nat.zero_mul, Nat.zero_add] at this
+    rw [this, if_neg h0]; omega
+
+theorem curveN_decomp (d : List Nat) (hwf : curveWF d) (x : Nat) (hx : 1 ≤ x) :
+    ∃ c t, 1 ≤ t ∧ t ≤ d.getLastD 0 ∧ x = c * d.getLastD 0 + t ∧
+      curveN d x = c * d.length + (1 + countLt d t) := by
   have hpos : 0 < d.getLastD 0 := hwf.2.2
-  refine ⟨x / d.getLastD 0, x % d.getLastD 0, Nat.mod_lt _ hpos, ?_, ?_⟩
-  · exact (Nat.div_add_mod' x _).symm
-  · have h := curveN_closed d hwf (x / d.getLastD 0) (x % d.getLastD 0) (Nat.mod_lt _ hpos)
-    rw [Nat.div_add_mod'] at h
-    exact h
+  have hdm := Nat.div_add_mod' (x - 1) (d.getLastD 0)
+  have hlt := Nat.mod_lt (x - 1) hpos
+  refine ⟨(x - 1) / d.getLastD 0, (x - 1) % d.getLastD 0 + 1, by omega, by omega, by omega, ?_⟩
+  have h := curveN_closed d hwf ((x - 1) / d.getLastD 0) ((x - 1) % d.getLastD 0 + 1)
+    (by omega) (by omega)
+  have e : (x - 1) / d.getLastD 0 * d.getLastD 0 + ((x - 1) % d.getLastD 0 + 1) = x := by omega
+  rw [e] at h
+  exact h
 
 theorem curveN_mono (d : List Nat) (hwf : curveWF d) : MonoN (curveN d) := by
   intro a b hab
-  obtain ⟨ca, ta, hta, ha, hNa⟩ := curveN_decomp d hwf a
-  obtain ⟨cb, tb, htb, hb, hNb⟩ := curveN_decomp d hwf b
+  by_cases ha0 : a = 0
+  · subst ha0; rw [curveN_zero]; exact Nat.zero_le _
+  obtain ⟨ca, ta, hta1, hta, ha, hNa⟩ := curveN_decomp d hwf a (by omega)
+  obtain ⟨cb, tb, htb1, htb, hb, hNb⟩ := curveN_decomp d hwf b (by omega)
   rw [hNa, hNb]
-  have hca := countLt_lt_length d hwf.1 ta (Nat.le_of_lt hta)
+  have hca := countLt_lt_length d hwf.1 ta hta
   have hmono := fun h => countLt_mono d ta tb h
   generalize d.getLastD 0 = L at *
   generalize d.length = n at *
@@ -199,28 +199,19 @@ theorem curveN_mono (d : List Nat) (hwf : curveWF d) : MonoN (curveN d) := by
   rcases Nat.lt_trichotomy ca cb with h | h | h
   · obtain ⟨e, rfl⟩ : ∃ e, cb = ca + 1 + e := ⟨cb - ca - 1, by omega⟩
     rw [Nat.add_mul, Nat.add_mul, Nat.one_mul]
-    split <;> split <;> omega
+    omega
   · subst h
     have : ta ≤ tb := by omega
     have := hmono this
-    split <;> split <;> omega
+    omega
   · obtain ⟨e, rfl⟩ : ∃ e, ca = cb + 1 + e := ⟨ca - cb - 1, by omega⟩
     rw [Nat.add_mul, Nat.add_mul, Nat.one_mul] at hab
     omega
 
 theorem curveN_pos (d : List Nat) (hwf : curveWF d) (x : Nat) (hx : 1 ≤ x) : 0 < curveN d x := by
-  obtain ⟨c, t, ht, hxe, hN⟩ := curveN_decomp d hwf x
+  obtain ⟨c, t, ht1, ht, hxe, hN⟩ := curveN_decomp d hwf x hx
   rw [hN]
-  have hlen : 0 < d.length := List.length_pos_iff.2 hwf.1
-  by_cases ht0 : t = 0
-  · subst ht0
-    have hc : 0 < c := by
-      rcases Nat.eq_zero_or_pos c with h | h
-      · subst h; omega
-      · exact h
-    have := Nat.mul_le_mul_right d.length hc
-    omega
-  · rw [if_neg ht0]; omega
+  omega
 
 /-- lower bound on the span of `m + 1` consecutive events of a sequence respecting `d`:
 whole blocks of `len` gaps span `last` each, the remainder is read off `d` -/
@@ -265,7 +256,7 @@ theorem respects_span (d rels : List Nat) (hne : d ≠ []) (h : Respects d rels)
 at least `Δ` (so they do not fit into a window of length `Δ`) -/
 theorem curveN_spanLB (d : List Nat) (hwf : curveWF d) (x m : Nat) (hx : 1 ≤ x)
     (hm : curveN d x ≤ m) : x ≤ spanLB d m := by
-  obtain ⟨c, t, ht, hxe, hN⟩ := curveN_decomp d hwf x
+  obtain ⟨c, t, ht1, ht, hxe, hN⟩ := curveN_decomp d hwf x hx
   have hlen : 0 < d.length := List.length_pos_iff.2 hwf.1
   rw [hN] at hm
   unfold spanLB
@@ -282,12 +273,9 @@ theorem curveN_spanLB (d : List Nat) (hwf : curveWF d) (x m : Nat) (hx : 1 ≤ x
     rw [Nat.add_mul, Nat.add_mul, Nat.one_mul] at hm
     omega
   · subst h
-    by_cases ht0 : t = 0
-    · omega
-    · rw [if_neg ht0] at hm
-      rw [if_neg (by omega)]
-      have := hget (by omega) (by omega)
-      omega
+    rw [if_neg (by omega)]
+    have := hget (by omega) (by omega)
+    omega
   · obtain ⟨e, rfl⟩ : ∃ e, q = c + 1 + e := ⟨q - c - 1, by omega⟩
     rw [Nat.add_mul, Nat.add_mul, Nat.one_mul]
     omega
